@@ -53,7 +53,7 @@ func replayObligation(E *Engine, prop string, o *Obligation) *replayResult {
 		return nil
 	}
 	switch prop {
-	case "C01", "C02", "C03", "C04", "C05", "C06", "C07", "C09", "C11", "C13", "C16", "C17":
+	case "C01", "C02", "C03", "C04", "C05", "C06", "C07", "C09", "C10", "C11", "C13", "C15", "C16", "C17":
 	default:
 		return &replayResult{Text: "no executable oracle for property " + prop + " in the replay harness"}
 	}
